@@ -22,6 +22,7 @@ CONSTANTS
   WithTwin,       \* object N is a reference with the number of object 1 and another generation
   CFIndirect,     \* streams with an explicit /Crypt filter also with indirect first array elements
   PlainIdentity,  \* unencrypted sources also have streams with /Crypt /Identity
+  Bodies,         \* identities of stream data, e.g. {"b1", "b2"}
   ParmRefLayouts  \* subset of {"dict", "array", "inddict", "indarray"}: /DecodeParms holding a reference
 
 RefSlots == {Rf(m) : m \in Nodes}
@@ -75,12 +76,12 @@ CFs == IF SrcEnc = "none"
             \cup (IF CFIndirect THEN {[cf |-> "identity", cfi |-> TRUE], [cf |-> "named", cfi |-> TRUE]} ELSE {})
 MCTwin == [n \in Nodes |-> IF WithTwin /\ n = N THEN 1 ELSE n]
 Streams == IF ~WithStream THEN {}
-           ELSE {[t |-> "st", k |-> Layout(l).k, e |-> Layout(l).e, body |-> "b1", cf |-> c.cf, cfi |-> c.cfi] :
-                    l \in StreamLayouts, c \in CFs}
-                \cup {[t |-> "st", k |-> Layout(l).k \o <<"K">>, e |-> Layout(l).e \o <<x>>, body |-> "b1", cf |-> c.cf, cfi |-> c.cfi] :
-                    l \in StreamLayouts, c \in CFs, x \in StreamSlots}
-                \cup {[t |-> "st", k |-> PLayout(l, m).k, e |-> PLayout(l, m).e, body |-> "b1", cf |-> "default", cfi |-> FALSE] :
-                    l \in ParmRefLayouts, m \in Nodes}
+           ELSE {[t |-> "st", k |-> Layout(l).k, e |-> Layout(l).e, body |-> b, cf |-> c.cf, cfi |-> c.cfi] :
+                    l \in StreamLayouts, c \in CFs, b \in Bodies}
+                \cup {[t |-> "st", k |-> Layout(l).k \o <<"K">>, e |-> Layout(l).e \o <<x>>, body |-> b, cf |-> c.cf, cfi |-> c.cfi] :
+                    l \in StreamLayouts, c \in CFs, x \in StreamSlots, b \in Bodies}
+                \cup {[t |-> "st", k |-> PLayout(l, m).k, e |-> PLayout(l, m).e, body |-> b, cf |-> "default", cfi |-> FALSE] :
+                    l \in ParmRefLayouts, m \in Nodes, b \in Bodies}
 
 MCNodeKinds ==
   {[k |-> "free"]} \cup (IF WithDangling THEN {[k |-> "dangling"]} ELSE {})
